@@ -24,6 +24,8 @@ def level1(atoms, ext=False):
             '%s %% %s' % (a0, a1), '%s ** %s' % (a0, a1), '%s / %s' % (a0, a1), 'f(%s, %s)' % (a0, a1), 'f(%s, k=%s)' % (a0, a1),
             '%s.m(%s)' % (a0, a1), '%s[%s]' % (a0, a1), '%s[%s:%s]' % (a0, a1, a2), '%s[:%s]' % (a0, a1), '%s[%s:]' % (a0, a1),
             '(%s, %s)' % (a0, a1), '%s.q.r' % a0, "f'{%s}'" % a0, "f'{%s!r}'" % a0, "f'p{%s}q{%s}'" % (a0, a1), '%s != 1' % a0,
+            '%s[%s::%s]' % (a0, a1, a2), '%s[::%s]' % (a0, a1), '%s[%s:%s:%s]' % (a0, a1, a2, a0), '%s[:%s:%s]' % (a0, a1, a2), '%s[1::2]' % a0,
+            '%s[-1]' % a0, '%s[%s, %s]' % (a0, a1, a2), '%s[1:2, %s]' % (a0, a1), '-1 ** %s' % a0, '(-1) ** %s' % a0, '%s - (-1)' % a0,
             "%s == 'k'" % a0, '%s >= %s' % (a0, a1), '%s > %s' % (a0, a1), '%s <= %s' % (a0, a1), '%s != %s' % (a0, a1)]
     if ext:
         out += ['%s | %s' % (a0, a1), '%s & %s' % (a0, a1), '%s ^ %s' % (a0, a1), '%s << %s' % (a0, a1), '%s >> %s' % (a0, a1),
@@ -96,3 +98,42 @@ def random_deep(atoms, depth, count, rng, ext=False):
         tries += 1
         out.add(gen(depth))
     return sorted(out)
+
+
+# ---------------------------------------------------------------------------------------------------------------------
+# boolean skeletons: every and/or/not tree over n leaves (jump-threading in the decompiler depends on the exact shape)
+LEAF_KINDS = ['{v}', '{v} is None', '{v} is not None', 'x.p == {v}', '{v} in b', 'f({v})']
+
+
+def bool_skeletons(n):
+    """all and/or/not formula shapes with n leaf holes; holes are written {0}..{n-1} left to right"""
+    def trees(lo, hi):
+        # returns list of strings for leaves lo..hi-1 (unparenthesised at top)
+        if hi - lo == 1:
+            return ['{%d}' % lo, 'not {%d}' % lo]
+        out = []
+        for mid in range(lo + 1, hi):
+            for l in trees(lo, mid):
+                for r in trees(mid, hi):
+                    for op in ('and', 'or'):
+                        e = '(%s) %s (%s)' % (l, op, r)
+                        out.append(e)
+                        out.append('not (%s)' % e)
+        return out
+    return trees(0, n)
+
+
+def bool_family(n, kinds=None, names='acd', rotations=None):
+    """skeletons x leaf-kind rotations: leaf i gets kind (i + r) % len(kinds)"""
+    kinds = kinds or LEAF_KINDS
+    out = []
+    sk = bool_skeletons(n)
+    for r in (rotations if rotations is not None else range(len(kinds))):
+        for t in sk:
+            leaves = ['(%s)' % kinds[(i + r) % len(kinds)].format(v=names[i % len(names)]) if (i + r) % len(kinds) else names[i % len(names)]
+                      for i in range(n)]
+            out.append(t.format(*leaves))
+    seen = set(); res = []
+    for e in out:
+        if e not in seen: seen.add(e); res.append(e)
+    return res
